@@ -788,6 +788,10 @@ func checkAttribution(rep *Reporter, specT, msgT *T) {
 					rep.Viol("the field-id path stops above the subfield at which decoding stopped", ul, d)
 					continue
 				}
+				if d := pathOffSpec(specT, err, path); d != "" {
+					rep.Viol("the field-id path does not continue with the subfield tags of the spec", ul, d)
+					continue
+				}
 				// elements before the failing one stay readable with their decoded values
 				for _, prev := range ranges {
 					if prev.id >= rg.id || prev.id == 1 {
@@ -864,6 +868,47 @@ func pathShortfall(err error, path []string) string {
 	return ""
 }
 
+// pathOffSpec: the path names data elements and subfields by their spec keys — element 0 / 1 / a
+// field id of the message spec, then at every composite level a key of that composite's
+// Subfields (the tag as the spec writes it, not its padded wire form). Only the last element may
+// be something else, and only when the failure *is* that the tag is unknown to the spec.
+func pathOffSpec(specT *T, err error, path []string) string {
+	if len(path) == 0 {
+		return ""
+	}
+	var cur *T
+	switch path[0] {
+	case "0", "1":
+		return ""
+	default:
+		cur = msgFieldSpecs(specT)[path[0]]
+		if cur == nil {
+			return "" // an id the spec does not define: reported as such
+		}
+	}
+	txt := err.Error()
+	unknownTag := strings.Contains(txt, "not defined in Spec") || strings.Contains(txt, "failed to skip unknown subfield") || strings.Contains(txt, "no specification found")
+	for i, tag := range path[1:] {
+		if cur == nil || cur.Name != "c" {
+			return ""
+		}
+		var next *T
+		for _, k := range cur.Kids[3:] {
+			if k.Kids[0].Name == tag {
+				next = k.Kids[1]
+			}
+		}
+		if next == nil {
+			if i == len(path)-2 && (unknownTag || tag == "") {
+				return "" // the tag is unknown to the spec, or could not be read at all
+			}
+			return fmt.Sprintf("path element %q below %v is not a subfield tag of the spec (%q); FieldIDs() = %v", tag, path[:i+1], txt, path)
+		}
+		cur = next
+	}
+	return ""
+}
+
 // checkErrorPath: any bytes; if Unpack fails the error is an UnpackError carrying the input
 // and a path that reaches the subfield at which decoding stopped.
 func checkErrorPath(rep *Reporter, specT *T, data []byte) {
@@ -889,6 +934,8 @@ func checkErrorPath(rep *Reporter, specT *T, data []byte) {
 		}
 		if d := pathShortfall(err, ue.FieldIDs()); d != "" {
 			rep.Viol("the field-id path stops above the subfield at which decoding stopped", ul, d)
+		} else if d := pathOffSpec(specT, err, ue.FieldIDs()); d != "" {
+			rep.Viol("the field-id path does not continue with the subfield tags of the spec", ul, d)
 		}
 	})
 }
